@@ -6,7 +6,7 @@
    are the hand model (Model/Alpn.v).  lit_h2 and lit_http11 are the byte strings h2 and http/1.1.
    Everything is for arbitrary byte strings and arbitrary lists. *)
 From Coq Require Import List Bool Arith.
-From MV Require Import Base.Bytes Model.AlpnPrelude Gen.AlpnSelect Model.Alpn Proofs.AlpnC18.
+From MV Require Import Base.Bytes Model.AlpnPrelude Gen.AlpnSelect Gen.ClientTlsReset Model.Alpn Proofs.AlpnC18.
 Import ListNotations.
 
 (* Clause 1: the selected protocol is always one the client offered (or none) ... *)
@@ -29,13 +29,82 @@ Theorem C18_client_alpn_exact : forall (ad : AppData) (options : list bytes) (a 
 Proof. exact client_alpn_exact. Qed.
 Print Assumptions C18_client_alpn_exact.
 
-(* Clause 4: on a secure web proxy outer connection (len(layers) = 2, layers[0] an HttpProxy)
-   only http/1.1 is selected, whatever client.alpn, server.alpn, http2 and the offers are. *)
-Theorem C18_secure_web_proxy_outer : forall (ca sa : option bytes) (h : bool) (options : list bytes),
-  let r := alpn_select_callback (tls_start_client_app_data 2 true ca sa h) options in
+(* Clause 4: on a secure web proxy outer connection only http/1.1 is selected.
+   (a) Whenever the test in tls_start_client fires (either variant of the hook, see Model/Alpn.v),
+       the result is http/1.1 or none, whatever client.alpn, server.alpn, http2 and the offers are. *)
+Theorem C18_secure_web_proxy_outer : forall (fixed : bool) (layers : list layer_kind) (ca sa : option bytes)
+    (h : bool) (options : list bytes),
+  is_outer fixed layers = true ->
+  let r := alpn_select_callback (tls_start_client_app_data fixed layers ca sa h) options in
   r = Sel lit_http11 \/ r = NO_OVERLAPPING_PROTOCOLS.
 Proof. exact secure_web_proxy_outer. Qed.
 Print Assumptions C18_secure_web_proxy_outer.
+
+(* (b) FINDING (known, secure-web-proxy-outer-h2-real-stack).  The CURRENT test, len(layers) == 2, does not
+       fire on the stack NextLayer really builds for a secure web proxy (HttpProxy, ClientTLSLayer, HttpLayer:
+       three layers when tls_start_client runs): offers [h2; http/1.1] select h2 on the outer connection. *)
+Theorem C18_secure_web_proxy_real_stack_refuted :
+  exists options,
+    is_outer false [LHttpProxy; LClientTLS; LOther] = false
+    /\ alpn_select_callback (tls_start_client_app_data false [LHttpProxy; LClientTLS; LOther] None None true) options
+       = Sel lit_h2.
+Proof. exact secure_web_proxy_real_stack_orig_refuted. Qed.
+Print Assumptions C18_secure_web_proxy_real_stack_refuted.
+
+(* (c) partial, guard = complement of the finding: the current test fires on two-layer stacks (the unit test shape). *)
+Theorem C18_secure_web_proxy_outer_partial : forall (k1 : layer_kind), is_outer false [LHttpProxy; k1] = true.
+Proof. exact outer_orig_two_layers. Qed.
+Print Assumptions C18_secure_web_proxy_outer_partial.
+
+(* (d) The REPAIRED test (fixes/C18-secure-web-proxy-real-stack.diff) fires on every stack that starts with
+       HttpProxy and has no ClientTLSLayer beyond index 1, and never on a tunnelled connection or another mode. *)
+Theorem C18_secure_web_proxy_outer_fixed : forall (k1 : layer_kind) (rest : list layer_kind),
+  existsb is_client_tls rest = false -> is_outer true (LHttpProxy :: k1 :: rest) = true.
+Proof. exact outer_fixed_real_stack. Qed.
+Print Assumptions C18_secure_web_proxy_outer_fixed.
+
+Theorem C18_fixed_not_inner : forall (k0 k1 : layer_kind) (rest : list layer_kind),
+  existsb is_client_tls rest = true \/ k0 <> LHttpProxy -> is_outer true (k0 :: k1 :: rest) = false.
+Proof. exact outer_fixed_not_inner. Qed.
+Print Assumptions C18_fixed_not_inner.
+
+(* Nested client TLS (secure web proxy: outer TLS established, then the inner ClientTLSLayer is constructed on
+   the SAME client connection).  CLIENT_TLS_RESET is GENERATED from ClientTLSLayer.__init__: the reset list must
+   contain alpn and alpn_offers, so the outer connection's negotiated protocol does not survive ... *)
+Theorem C18_nested_reset : forall (st : client_tls_state),
+  c_tls st = true ->
+  c_alpn (client_tls_layer_init st) = None
+  /\ c_alpn_offers (client_tls_layer_init st) = []
+  /\ c_tls (client_tls_layer_init st) = true.
+Proof. exact nested_reset. Qed.
+Print Assumptions C18_nested_reset.
+
+(* ... and the tunnelled client gets exactly the known, reachable upstream protocol (clauses 2+3 for the
+   nested case), whatever was negotiated or offered on the outer connection. *)
+Theorem C18_nested_upstream_known : forall (st : client_tls_state) (fixed : bool) (layers : list layer_kind)
+    (h : bool) (options : list bytes) (s : bytes),
+  c_tls st = true -> is_outer fixed layers = false -> reach options h (Some s) ->
+  let r := alpn_select_callback
+             (tls_start_client_app_data fixed layers (c_alpn (client_tls_layer_init st)) (Some s) h) options in
+  (r = Sel s \/ r = NO_OVERLAPPING_PROTOCOLS)
+  /\ (s <> [] -> r = Sel s) /\ (s = [] -> r = NO_OVERLAPPING_PROTOCOLS)
+  /\ (h = false -> r <> Sel lit_h2).
+Proof. exact nested_upstream_known. Qed.
+Print Assumptions C18_nested_upstream_known.
+
+(* non-vacuous: stale outer http/1.1, upstream h2 offered: with the reset the client gets h2; the last
+   conjunct shows what a missing reset would do (http/1.1) *)
+Theorem C18_nested_nonvacuous :
+  is_outer false inner_stack = false /\ is_outer true inner_stack = false
+  /\ reach [lit_h2; lit_http11] true (Some lit_h2)
+  /\ alpn_select_callback
+       (tls_start_client_app_data false inner_stack (c_alpn (client_tls_layer_init stale_outer_state)) (Some lit_h2) true)
+       [lit_h2; lit_http11] = Sel lit_h2
+  /\ alpn_select_callback
+       (tls_start_client_app_data false inner_stack (c_alpn stale_outer_state) (Some lit_h2) true)
+       [lit_h2; lit_http11] = Sel lit_http11.
+Proof. exact nested_nonvacuous. Qed.
+Print Assumptions C18_nested_nonvacuous.
 
 (* The lemma about tls_start_server behind the reachability hypothesis: with no preset offers it
    offers upstream exactly the client offers, minus h2 when http2 is off. *)
@@ -59,9 +128,9 @@ Print Assumptions C18_upstream_known.
 
 (* Clause 3 (system level): http2 off, AppData as tls_start_client builds it while client.alpn is
    unset, upstream protocol reachable -> h2 is never selected. *)
-Theorem C18_no_h2_when_disabled : forall (n : nat) (l0 : bool) (sa : option bytes) (options : list bytes),
+Theorem C18_no_h2_when_disabled : forall (fixed : bool) (layers : list layer_kind) (sa : option bytes) (options : list bytes),
   reach options false sa ->
-  alpn_select_callback (tls_start_client_app_data n l0 None sa false) options <> Sel lit_h2.
+  alpn_select_callback (tls_start_client_app_data fixed layers None sa false) options <> Sel lit_h2.
 Proof. exact no_h2_when_disabled_system. Qed.
 Print Assumptions C18_no_h2_when_disabled.
 
@@ -69,10 +138,10 @@ Print Assumptions C18_no_h2_when_disabled.
    negotiate nothing or a protocol that was offered (the OpenSSL contract). *)
 Theorem C18_end_to_end : forall (upstream_select : list bytes -> bytes),
   (forall l, upstream_select l = [] \/ In (upstream_select l) l) ->
-  forall (n : nat) (l0 h : bool) (options : list bytes) (pre : option (list bytes)),
-    (n =? 2) && l0 = false -> py_truthy_offers pre = false ->
+  forall (fixed : bool) (layers : list layer_kind) (h : bool) (options : list bytes) (pre : option (list bytes)),
+    is_outer fixed layers = false -> py_truthy_offers pre = false ->
     let s := upstream_select (tls_start_server_offers pre options h) in
-    let r := alpn_select_callback (tls_start_client_app_data n l0 None (Some s) h) options in
+    let r := alpn_select_callback (tls_start_client_app_data fixed layers None (Some s) h) options in
     (s <> [] -> r = Sel s) /\ (s = [] -> r = NO_OVERLAPPING_PROTOCOLS)
     /\ (h = false -> r <> Sel lit_h2).
 Proof. exact end_to_end. Qed.
@@ -110,11 +179,11 @@ Print Assumptions C18_http2_without_reach_refuted.
    filtered when http2 is off; http/1.1 forced on the secure web proxy outer connection). *)
 Theorem C18_nonvacuous :
   reach [lit_h2; lit_http11] true (Some lit_h2)
-  /\ alpn_select_callback (tls_start_client_app_data 4 false None (Some lit_h2) true) [lit_h2; lit_http11] = Sel lit_h2
+  /\ alpn_select_callback (tls_start_client_app_data false [LHttpProxy; LOther; LOther; LClientTLS] None (Some lit_h2) true) [lit_h2; lit_http11] = Sel lit_h2
   /\ tls_start_server_offers None [lit_h2; lit_http11] false = [lit_http11]
   /\ reach [lit_h2; lit_http11] false (Some lit_http11)
-  /\ alpn_select_callback (tls_start_client_app_data 4 false None (Some lit_http11) false) [lit_h2; lit_http11] = Sel lit_http11
-  /\ alpn_select_callback (tls_start_client_app_data 2 true None None true) [lit_h2; lit_http11] = Sel lit_http11.
+  /\ alpn_select_callback (tls_start_client_app_data false [LHttpProxy; LOther; LOther; LClientTLS] None (Some lit_http11) false) [lit_h2; lit_http11] = Sel lit_http11
+  /\ alpn_select_callback (tls_start_client_app_data false [LHttpProxy; LClientTLS] None None true) [lit_h2; lit_http11] = Sel lit_http11.
 Proof. exact nonvacuous. Qed.
 Print Assumptions C18_nonvacuous.
 
